@@ -33,11 +33,16 @@ var c16Shapes = []struct{ name, open, close string }{
 	{"obj-arr", `{"a":[`, "]}"},
 	{"objects-space-after-colon", `{"k": `, "}"},
 	{"objects-ws-everywhere", "{ \"k\" :\r\n\t", " } "},
+	// the nested child is not the first member / element of its parent
+	{"second-member", `{"a":0,"b":`, "}"},
+	{"second-element", "[0,", "]"},
+	{"after-siblings", `{"a":[],"b":{},"c":"s","d":`, "}"},
 }
 
 // bombInput: lead 0 none, 1 = 1 KiB of whitespace, 2 = the tower is the second
 // element of an array that starts with a scalar, 3 = the tower is the value of a
-// later member of an object whose first members are a scalar and an array.
+// later member of an object whose first members are a scalar and an array,
+// 4 = the tower follows a wide flat object (5000 members) inside an array.
 func bombInput(shape, depth int, closed bool, lead int) []byte {
 	s := c16Shapes[shape]
 	var sb bytes.Buffer
@@ -51,6 +56,11 @@ func bombInput(shape, depth int, closed bool, lead int) []byte {
 	case 3:
 		sb.WriteString(`{"a":0,"b":[1,2],"k":`)
 		tail = "}"
+	case 4:
+		sb.WriteString(`[{"m":0`)
+		sb.Write(bytes.Repeat([]byte(`,"m":0`), 4999))
+		sb.WriteString("},")
+		tail = "]"
 	}
 	sb.Grow(depth*(len(s.open)+len(s.close)) + 8)
 	for i := 0; i < depth; i++ {
@@ -174,12 +184,12 @@ func c16Run(c *core.Ctx) {
 	for si := range c16Shapes {
 		for _, d := range depths {
 			for closed := 0; closed <= 1; closed++ {
-				for lead := 0; lead <= 3; lead++ {
+				for lead := 0; lead <= 4; lead++ {
 					for lm := 0; lm < 4; lm++ {
 						for entry := 0; entry <= 1; entry++ {
 							if d >= 1000000 && !c.Thorough() {
 								// quick: the largest bombs only in the modes the statement names
-								if lm > 1 || lead == 1 || (entry == 1 && lm != 0) || (d > 1000000 && si > 2 && si < 5) || (lead >= 2 && (lm != 0 || entry == 1)) {
+								if lm > 1 || lead == 1 || (entry == 1 && lm != 0) || (d > 1000000 && (si == 3 || si == 4 || si >= 7)) || (lead >= 2 && (lm != 0 || entry == 1)) {
 									continue
 								}
 							}
